@@ -82,7 +82,7 @@ def fq(pkg, ty):
     return "." + ".".join(list(pkg) + [ty])
 
 
-def refs_proto(cur, targets, fileof, lower_types=False, wkt=False):
+def refs_proto(cur, targets, fileof, lower_types=False, wkt=False, sites="all"):
     lines = ['syntax = "proto3";']
     for t in sorted(set(targets)):
         lines.append('import "%s";' % fileof[t])
@@ -92,6 +92,12 @@ def refs_proto(cur, targets, fileof, lower_types=False, wkt=False):
     if cur:
         lines.append("package %s;" % dot(cur))
     body, rpcs, n = [], [], 1
+    if sites == "rpc":
+        # the RPC input / output types are the ONLY references to the other package in this module
+        body.append("  int32 plain = 1;")
+        for i, t in enumerate(targets):
+            rpcs.append("  rpc Call%d(%s) returns (%s);" % (i, fq(t, "Msg"), fq(t, "Msg.Inner")))
+        targets = []
     for i, t in enumerate(targets):
         body.append("  %s f%d = %d;" % (fq(t, "Msg"), i, n)); n += 1
         body.append("  repeated %s r%d = %d;" % (fq(t, "Msg.Inner"), i, n)); n += 1
@@ -101,7 +107,8 @@ def refs_proto(cur, targets, fileof, lower_types=False, wkt=False):
         body.append("  oneof g%d { %s om%d = %d; %s oe%d = %d; }" % (i, fq(t, "Msg.Inner"), i, n, fq(t, "Color"), i, n + 1)); n += 2
         if lower_types:
             body.append("  %s lt%d = %d;" % (fq(t, "lower.inner"), i, n)); n += 1
-        rpcs.append("  rpc Call%d(%s) returns (%s);" % (i, fq(t, "Msg"), fq(t, "Msg.Inner")))
+        if sites != "fields":
+            rpcs.append("  rpc Call%d(%s) returns (%s);" % (i, fq(t, "Msg"), fq(t, "Msg.Inner")))
     if wkt:
         for j, w in enumerate(WKT):
             body.append("  .google.protobuf.%s w%d = %d;" % (w, j, n)); n += 1
@@ -117,7 +124,7 @@ def universe_sources(u):
     src = {fileof[p]: defs_proto(p, u.get("lower_types", False)) for p in pk}
     for j, (cur, tgts) in enumerate(u["refs"]):
         src["q%d_refs.proto" % j] = refs_proto(tuple(cur), [tuple(t) for t in tgts], fileof,
-                                               u.get("lower_types", False), u.get("wkt", False))
+                                               u.get("lower_types", False), u.get("wkt", False), u.get("sites", "all"))
     return src
 
 
@@ -195,7 +202,7 @@ def check_universe(u, opts=()):
     fails, facts = [], []
     tag = {"universe": u["name"], "packages": [dot(p) for p in u["packages"]],
            "refs": [[dot(c), [dot(t) for t in ts]] for c, ts in u["refs"]],
-           "opts": list(opts), "lower_types": u.get("lower_types", False), "wkt": u.get("wkt", False)}
+           "opts": list(opts), "lower_types": u.get("lower_types", False), "wkt": u.get("wkt", False), "sites": u.get("sites", "all")}
     g = generate(universe_sources(u), opts)
     try:
         if not g.ok:
@@ -251,6 +258,9 @@ def _check_imported(u, g, tag, fails, facts, opts):
                      ("oneof-message", "om%d" % i, "MsgInner"), ("oneof-enum", "oe%d" % i, "Color")]
             if u.get("lower_types"):
                 sites.append(("lowertype", "lt%d" % i, "LowerInner"))
+            only = u.get("sites", "all")
+            if only == "rpc":
+                sites = []
             for site, fname, cname in sites:
                 want = getattr(tm, cname, None)
                 inp = dict(inp0, site=site, field=fname, expect=cname)
@@ -268,7 +278,11 @@ def _check_imported(u, g, tag, fails, facts, opts):
             # rpc input / output: stub annotations and the server's handler table
             inp = dict(inp0, site="rpc")
             want_in, want_out = getattr(tm, "Msg", None), getattr(tm, "MsgInner", None)
+            if only == "fields":
+                stub = mapping = None
             try:
+                if stub is None and only == "fields":
+                    raise LookupError
                 fn = getattr(stub, "call%d" % i)
                 sig = inspect.signature(fn)
                 params = list(sig.parameters.values())
@@ -276,15 +290,21 @@ def _check_imported(u, g, tag, fails, facts, opts):
                 got_out = eval_annotation(m, sig.return_annotation)
                 if got_in is not want_in or got_out is not want_out:
                     fails.append(("reference-wrong-class", dict(inp, site="rpc-stub"), "stub call%d: %r -> %r" % (i, got_in, got_out)))
+            except LookupError:
+                pass
             except Exception as e:  # noqa
                 fails.append(("reference-unresolvable", dict(inp, site="rpc-stub"), repr(e)[:300]))
-            if isinstance(mapping, Exception):
+            if only == "fields":
+                pass
+            elif isinstance(mapping, Exception):
                 fails.append(("reference-unresolvable", dict(inp, site="rpc-server"), repr(mapping)[:300]))
             else:
                 hs = [h for route, h in mapping.items() if route.endswith("/Call%d" % i)]
                 if len(hs) != 1 or hs[0].request_type is not want_in or hs[0].reply_type is not want_out:
                     fails.append(("reference-wrong-class", dict(inp, site="rpc-server"), repr(hs)[:300]))
             # round trip a message through the referencing fields
+            if only == "rpc":
+                continue
             try:
                 r = Ref(**{"f%d" % i: want_in(x=5), "r%d" % i: [want_out(y=6), want_out(y=7)],
                            "m%d" % i: {"k": want_in(x=8)}, "e%d" % i: tm.Color(1), "om%d" % i: want_out(y=9)})
@@ -382,6 +402,15 @@ def universes(chk):
         extra = [(c, t) for c in ps3 for t in ps3 if max(len(c), len(t)) == 3]
         pairs += rng.sample(extra, 120)
     us += [pair_universe(c, t) for c, t in pairs]
+    # reference sites in isolation: the RPC input / output types are the only reference to the other package
+    # (quick: two pairs per relation class; thorough: every pair)
+    byrel = {}
+    for c, t in pairs:
+        byrel.setdefault((relation(c, t), len(c), len(t)), []).append((c, t))
+    iso = pairs if not quick else [p for k in sorted(byrel) for p in rng.sample(byrel[k], min(2, len(byrel[k])))]
+    for c, t in iso:
+        us.append(dict(pair_universe(c, t, "rpc-only %s -> %s" % (dot(c) or "<root>", dot(t) or "<root>")), sites="rpc"))
+    us.append(dict(all_at_once(paths(["a", "b"], 2), "all-at-once rpc-only"), sites="rpc"))
     # all at once: every package refers to every package (circular package dependencies, many aliases in one module)
     us.append(all_at_once(paths(["a", "b", "c"], 2), "all-at-once depth<=2 over {a,b,c}"))
     us.append(all_at_once([(), ("a",), ("a", "b"), ("a", "b", "a"), ("a", "b", "c"), ("b",), ("b", "a"), ("b", "a", "c"), ("c", "c", "c")],
@@ -619,7 +648,7 @@ def classify(failure, known):
 def _parse_universe(tag):
     return {"name": tag["universe"], "packages": [tuple(p.split(".")) if p else () for p in tag["packages"]],
             "refs": [(tuple(c.split(".")) if c else (), [tuple(t.split(".")) if t else () for t in ts]) for c, ts in tag["refs"]],
-            "lower_types": tag.get("lower_types", False), "wkt": tag.get("wkt", False)}, tuple(tag.get("opts", []))
+            "lower_types": tag.get("lower_types", False), "wkt": tag.get("wkt", False), "sites": tag.get("sites", "all")}, tuple(tag.get("opts", []))
 
 
 def replay(chk, rp):
